@@ -109,7 +109,10 @@ Aux:
 					if len(args) <= ai {
 						panic(fmt.Sprintf("Missing value for key :%s.", sym))
 					}
-					ss.Let(sym, args[ai])
+					// The leftmost of duplicate keys is the one that binds.
+					if _, dup := ss.Vars[strings.ToLower(string(sym))]; !dup {
+						ss.Let(sym, args[ai])
+					}
 					ai++
 					continue
 				}
